@@ -213,7 +213,7 @@ Qed.
 (* read_xrefTable's loops on the whole table of the writer model, up to and including the `trailer` keyword:
    one subsection `0 n+1`, object 0 free (recorded for later), the n in-use entries inserted, and the input left
    just after the keyword.  [rest] is what follows the keyword (in the writer's output: ` << ...`). *)
-Lemma rd_table_section_model_lemma : forall file pos offs rest max_id st,
+Lemma rd_table_section_model_step : forall file pos offs rest max_id st,
   let n := N.of_nat (length offs) in
   rd_at file pos = [48; 32] ++ dec_of_N (n + 1) ++ [10] ++ s_free
                    ++ flat_map (fun ko : N * N => xref_line (snd ko)) offs ++ rd_s_trailer ++ rest ->
